@@ -156,6 +156,8 @@ class Interp:
                     return Iv(0.0, INF)
                 return TOP
             a, b = self.of(x), self.of(y)
+            if o == "*" and x is y:
+                return powi(a, 2)
             if o == "+":
                 return Iv(a.lo + b.lo if not (a.lo == -INF or b.lo == -INF) else -INF, a.hi + b.hi if not (a.hi == INF or b.hi == INF) else INF)
             if o == "-":
@@ -165,6 +167,11 @@ class Interp:
             if o == "/":
                 return mul(a, recip(b))
             if o == "%":
+                if a.lo == a.hi and b.lo == b.hi and b.lo != 0 and abs(a.lo) != INF:
+                    v = math.fmod(a.lo, b.lo)
+                    if v != 0 and (v < 0) != (b.lo < 0):
+                        v += b.lo
+                    return Iv(v, v)
                 if b.lo == b.hi and b.lo > 0:
                     return Iv(0.0, b.lo)
                 return TOP
@@ -182,6 +189,13 @@ class Interp:
 
     def _lib(self, name, av, kv, n) -> Iv:
         a = av[0] if av else TOP
+        if av and all(x.lo == x.hi and abs(x.lo) != INF for x in av) and name in _POINT:
+            try:
+                v = _POINT[name](*[x.lo for x in av])
+                if v == v:
+                    return Iv(v, v)
+            except (ValueError, OverflowError, ZeroDivisionError):
+                pass
         if name == "sqrt":
             self.definedness.append(("sqrt", a, a.lo >= 0, ir.show(n.a[1][0])[:100]))
             return Iv(math.sqrt(max(a.lo, 0.0)) if a.lo != INF else INF, math.sqrt(a.hi) if 0 <= a.hi < INF else (INF if a.hi == INF else 0.0))
@@ -245,6 +259,12 @@ class Interp:
         return TOP
 
 
+_POINT = {
+    "copysign": math.copysign, "sign": lambda v: (v > 0) - (v < 0) + 0.0, "arctan2": math.atan2, "sin": math.sin, "cos": math.cos,
+    "tan": math.tan, "absolute": abs, "arctan": math.atan, "sinh": math.sinh, "arcsinh": math.asinh, "exp": math.exp,
+}
+
+
 def default_pre(name) -> Iv:
     """documented storage domains, keyed by canonical parameter names (x1, rho2, theta1, ...)"""
     base = name
@@ -258,3 +278,40 @@ def default_pre(name) -> Iv:
     if base == "theta":
         return Iv(0.0, PI)
     return TOP
+
+
+# ---- refutation by singleton abstract values ---------------------------------------------------------
+
+GRID = {"rho": (0.0, 0.5, 2.0), "phi": (-3.0, -1.0, 0.0, 1.0, 3.0), "theta": (0.1, 1.5, 3.0), "*": (-2.0, -0.5, 0.0, 0.5, 2.0)}
+
+
+def find_counterexample(node: ir.Node, lo, hi, limit=6000):
+    """evaluate the expression on singleton intervals (points of the storage domain); return an assignment whose value
+    is outside [lo, hi] by more than rounding, or for which a sqrt/arccos/log argument is outside its domain"""
+    import itertools
+    params = sorted({x.a[0] for x in ir.walk(node) if x.kind == "param"})
+    choices = []
+    for p in params:
+        base = str(p).rstrip("0123456789")
+        choices.append(GRID.get(base, GRID["*"]))
+    n = 0
+    for combo in itertools.product(*choices):
+        n += 1
+        if n > limit:
+            break
+        asg = dict(zip(params, combo))
+        I = Interp(lambda name: Iv(asg[name], asg[name]))
+        try:
+            iv = I.of(node)
+        except (AnalysisError, ValueError, OverflowError, ZeroDivisionError):
+            continue
+        for fn, arg, ok, txt in I.definedness:
+            if not ok and fn in ("sqrt", "arccos", "log") and arg.hi < (0 if fn != "arccos" else -1) - 1e-9:
+                return {"point": asg, "problem": f"{fn} argument {arg.hi!r} outside its domain"}
+        if iv.lo == iv.hi or (iv.hi - iv.lo) < 1e-9:
+            v = iv.lo
+            if v != v:
+                continue
+            if v < lo - 1e-9 or v > hi + 1e-9:
+                return {"point": asg, "value": v}
+    return None
